@@ -22,6 +22,7 @@ type TempoController struct {
 }
 
 func (t *TempoController) Trace(w http.ResponseWriter, r *http.Request) {
+	defer tamePanic(w, r)
 	internalCtx, err := RunPreRequestPlugins(r)
 	if err != nil {
 		PromError(500, err.Error(), w)
@@ -48,7 +49,7 @@ func (t *TempoController) Trace(w http.ResponseWriter, r *http.Request) {
 	if err != nil {
 		end = 0
 	}
-	bTraceId := make([]byte, 32)
+	bTraceId := make([]byte, hex.DecodedLen(len(traceId)))
 	_, err = hex.Decode(bTraceId, []byte(traceId))
 	if err != nil {
 		PromError(500, err.Error(), w)
@@ -135,6 +136,7 @@ func (t *TempoController) Echo(w http.ResponseWriter, r *http.Request) {
 }
 
 func (t *TempoController) Tags(w http.ResponseWriter, r *http.Request) {
+	defer tamePanic(w, r)
 	internalCtx, err := RunPreRequestPlugins(r)
 	if err != nil {
 		PromError(500, err.Error(), w)
@@ -160,6 +162,7 @@ func (t *TempoController) Tags(w http.ResponseWriter, r *http.Request) {
 }
 
 func (t *TempoController) TagsV2(w http.ResponseWriter, r *http.Request) {
+	defer tamePanic(w, r)
 	var err error
 	internalCtx, err := RunPreRequestPlugins(r)
 	if err != nil {
@@ -225,6 +228,7 @@ func (t *TempoController) TagsV2(w http.ResponseWriter, r *http.Request) {
 }
 
 func (t *TempoController) ValuesV2(w http.ResponseWriter, r *http.Request) {
+	defer tamePanic(w, r)
 	var err error
 	internalCtx, err := RunPreRequestPlugins(r)
 	if err != nil {
@@ -288,6 +292,7 @@ func (t *TempoController) ValuesV2(w http.ResponseWriter, r *http.Request) {
 }
 
 func (t *TempoController) Values(w http.ResponseWriter, r *http.Request) {
+	defer tamePanic(w, r)
 	internalCtx, err := RunPreRequestPlugins(r)
 	if err != nil {
 		PromError(500, err.Error(), w)
@@ -315,6 +320,7 @@ func (t *TempoController) Values(w http.ResponseWriter, r *http.Request) {
 }
 
 func (t *TempoController) Search(w http.ResponseWriter, r *http.Request) {
+	defer tamePanic(w, r)
 	internalCtx, err := RunPreRequestPlugins(r)
 	if err != nil {
 		PromError(500, err.Error(), w)
